@@ -518,9 +518,22 @@ class Sim:
         cs = self.cs
         i = cs.draw("i", m.n)
         x, c = gen_value(cs, m.mins[i], m.maxs[i], 2 if m.accept_nan else 0)
-        form = cs.draw("form", 3)
-        xv = x if form == 0 else (np.float64(x) if form == 1 else
-                                  np.array(x))
+        form = cs.draw("form", 7)
+        if form == 3 and (x != x or abs(x) == INF or abs(x) < 1e30):
+            # a single-precision scalar: what is assigned is its value
+            with np.errstate(all="ignore"):
+                xv = np.float32(x)
+            x = float(xv)
+        elif form == 4:
+            xv = repr(x)                      # a number read from text
+        elif form == 5 and x == x and abs(x) < 1e15 and x == int(x):
+            xv = int(x)
+        elif form == 6:
+            xv = np.array(x, dtype=np.longdouble)[()]
+        else:
+            form = form if form < 3 else 0
+            xv = x if form == 0 else (np.float64(x) if form == 1 else
+                                      np.array(x))
         self.log.ev(how, vid, m.names[i], x, c, form)
         try:
             if how == "set_attr":
@@ -651,10 +664,17 @@ class Sim:
                 vals[cs.draw("i", m.n)] = NAN
                 # make the other elements different so a partial store shows
                 v.values = self.as_buf(vals, "rj")
-            elif k == "nan_attr":
-                setattr(v, m.names[cs.draw("i", m.n)], NAN)
-            elif k == "nan_key":
-                v[m.names[cs.draw("i", m.n)]] = np.float64(NAN)
+            elif k in ("nan_attr", "nan_key"):
+                # NaN in any of the scalar forms an assignment accepts
+                nanv = [NAN, np.float64(NAN), np.float32(NAN), "nan",
+                        np.array(NAN), np.array(NAN, dtype=np.float32),
+                        np.float16(NAN),
+                        np.array(NAN, dtype=np.longdouble)[()]][
+                            cs.draw("nanform", 8)]
+                if k == "nan_attr":
+                    setattr(v, m.names[cs.draw("i", m.n)], nanv)
+                else:
+                    v[m.names[cs.draw("i", m.n)]] = nanv
         except Exception as e:
             raised = True
             self.log.ev("reject.raised", type(e).__name__)
